@@ -225,6 +225,7 @@ Section Proofs.
 
   Notation hrm := (http_redirect_message sign).
   Notation vrs := (verify_redirect_signature cert_of verify).
+  Notation vrsg := (verify_redirect_signature_gen cert_of verify).
 
   (* ---------------------------------------------------------------- the two functions, characterised *)
 
@@ -244,8 +245,8 @@ Section Proofs.
     - pose proof (sign_octets_resp v r a) as E. unfold rsl in *. rewrite E. reflexivity.
   Qed.
 
-  Lemma vrs_char own q c :
-    vrs own q c =
+  Lemma vrsg_char strict own q c :
+    vrsg strict own q c =
     match get q K_ALG with
     | None => VKeyError
     | Some a =>
@@ -261,7 +262,8 @@ Section Proofs.
                     match decode_str sp with
                     | None => VValueError
                     | Some s =>
-                        if verify (match c with Some c' => c' | None => cert_of own end) d
+                        if strict && negb (String.eqb (encode s) sp) then VFalse
+                        else if verify (match c with Some c' => c' | None => cert_of own end) d
                                   (octets_of t v (get q K_RS) a) s then VTrue else VFalse
                     end
                 end
@@ -269,7 +271,7 @@ Section Proofs.
         end
     end.
   Proof.
-    unfold verify_redirect_signature, vview, has.
+    unfold verify_redirect_signature_gen, vview, has.
     destruct (get q K_ALG) as [a|] eqn:Ea; [|reflexivity].
     destruct (digest_of a) as [d|]; [|reflexivity].
     destruct (get q K_REQ) as [v|] eqn:Ev.
@@ -277,6 +279,9 @@ Section Proofs.
     - destruct (get q K_RESP) as [v|] eqn:Ev2; [|reflexivity].
       rewrite (octets_resp q v a Ev2 Ea). reflexivity.
   Qed.
+
+  Lemma vrs_char own q c : vrs own q c = vrsg true own q c.
+  Proof. reflexivity. Qed.
 
   (* the parameters of the URL that signing produces *)
   Lemma signed_gets k t v r a d :
@@ -313,11 +318,11 @@ Section Proofs.
     (vrs own q (Some c) = VTrue <-> c = cert_of k).
   Proof.
     intros Ht Hd Hs. destruct (signed_gets k t v r a d Ht) as [G1 [G2 [G3 [G4 G5]]]].
-    rewrite vrs_char.
+    rewrite vrs_char, vrsg_char.
     rewrite (Hs K_ALG) by (cbn; auto 10). rewrite G3, Hd.
     rewrite (vview_same q _ t v Ht Hs G5).
     rewrite (Hs K_SIG) by (cbn; auto 10). rewrite G4.
-    rewrite b64_decode_str_encode.
+    rewrite b64_decode_str_encode, String.eqb_refl. cbn [andb negb].
     rewrite (Hs K_RS) by (cbn; auto 10). rewrite G2.
     destruct (verify c d (octets_of t v (rsopt r) a) (sign k d (octets_of t v (rsopt r) a))) eqn:E.
     - apply verify_own in E. split; auto.
@@ -330,24 +335,28 @@ Section Proofs.
     vrs own q (Some c) = VTrue ->
     exists a d t v sp k, get q K_ALG = Some a /\ digest_of a = Some d /\ vview q = Some (t, v)
       /\ get q K_SIG = Some sp /\ c = cert_of k
-      /\ decode_str sp = Some (sign k d (octets_of t v (get q K_RS) a)).
+      /\ sp = encode (sign k d (octets_of t v (get q K_RS) a)).
   Proof.
-    rewrite vrs_char.
+    rewrite vrs_char, vrsg_char.
     destruct (get q K_ALG) as [a|] eqn:Ea; [|discriminate].
     destruct (digest_of a) as [d|] eqn:Ed; [|discriminate].
     destruct (vview q) as [[t v]|] eqn:Ev; [|discriminate].
     destruct (get q K_SIG) as [sp|] eqn:Es; [|discriminate].
     destruct (decode_str sp) as [s|] eqn:Edec; [|discriminate].
+    destruct (String.eqb (encode s) sp) eqn:Ecan; cbn [andb negb]; [|discriminate].
     destruct (verify c d (octets_of t v (get q K_RS) a) s) eqn:E; [|discriminate].
     intros _. apply (verify_iff _ _ _ Hideal) in E as [k [Hc Hs]].
+    apply String.eqb_eq in Ecan.
     exists a, d, t, v, sp, k. subst. repeat split; try reflexivity; assumption.
   Qed.
 
-  (* the adversary model for the tamper clause: the Signature parameter presented is literally the one of
-     the signed URL, or it decodes to something that is not a signature made with the signer's key *)
+  (* the adversary model for the tamper clause (unforgeability, one signature known): the Signature parameter
+     presented is literally the one of the signed URL, or it is not the base64 text of any signature made
+     with the signer's key.  Nothing is assumed about HOW it differs: foreign characters, data after the
+     padding, changed unused bits, another encoding of the same bytes are all inside the quantifier *)
   Definition no_other_sig (k : key) (q h : query) : Prop :=
-    forall sp s, get q K_SIG = Some sp -> decode_str sp = Some s ->
-      get h K_SIG = Some sp \/ (forall d m, s <> sign k d m).
+    forall sp, get q K_SIG = Some sp ->
+      get h K_SIG = Some sp \/ (forall d m, sp <> encode (sign k d m)).
 
   (* D2: whatever verifies under the signer's certificate has the four parameters unchanged *)
   Lemma tamper_rejected k t v r a d own q :
@@ -359,10 +368,10 @@ Section Proofs.
     intros Ht Hd Hg Hv. destruct (signed_gets k t v r a d Ht) as [G1 [G2 [G3 [G4 G5]]]].
     destruct (accept_sound own q _ Hv) as [a' [d' [t' [v' [sp [k' [Ea [Ed [Evw [Es [Ec Edec]]]]]]]]]]].
     apply (cert_inj _ _ _ Hideal) in Ec. subst k'.
-    destruct (Hg sp _ Es Edec) as [Hsame|Hno]; [|exfalso; exact (Hno _ _ eq_refl)].
-    rewrite G4 in Hsame. injection Hsame as Hsp. subst sp.
-    rewrite b64_decode_str_encode in Edec. injection Edec as Edec.
-    apply (sign_inj _ _ _ Hideal) in Edec as [_ [_ Hm]].
+    destruct (Hg sp Es) as [Hsame|Hno]; [|exfalso; exact (Hno _ _ Edec)].
+    rewrite G4 in Hsame. injection Hsame as Hsp. rewrite Edec in Hsp.
+    apply encode_injective in Hsp.
+    apply (sign_inj _ _ _ Hideal) in Hsp as [_ [_ Hm]].
     destruct (vview_dirtyp q t' v' Evw) as [Ht' Hgv].
     apply octets_injective in Hm as [-> [-> [Hr ->]]]; [|exact Ht|exact Ht'].
     intros x Hx. cbn [In] in Hx. destruct Hx as [<-|[<-|[<-|[<-|[]]]]]; congruence.
@@ -383,7 +392,7 @@ Section Proofs.
   Lemma unsupported_not_verified own q c a :
     get q K_ALG = Some a -> ~ supported a -> vrs own q c = VNone.
   Proof.
-    intros Ha Hn. rewrite vrs_char, Ha. destruct (digest_of a) as [d|] eqn:E; [|reflexivity].
+    intros Ha Hn. rewrite vrs_char, vrsg_char, Ha. destruct (digest_of a) as [d|] eqn:E; [|reflexivity].
     exfalso. apply Hn. apply digest_supported. exists d. exact E.
   Qed.
 
@@ -470,9 +479,27 @@ Section Proofs.
              (K_SIG, String "!"%char (encode (sign k0 "sha256" (octets_of K_REQ "v" None SHA256))))];
        vc := Some (cert_of k0); own := k0 |}.
 
-  Lemma f1_accepts k0 : snd (model (f1_witness k0)) = VTrue.
+  Notation model_v0 := (model_v0 cert_of sign verify).
+
+  Lemma f1_accepts k0 : snd (model_v0 (f1_witness k0)) = VTrue.
   Proof.
-    cbn [snd Spec.model f1_witness own q vc]. rewrite vrs_char.
+    cbn [snd Spec.model_v0 f1_witness own q vc]. unfold verify_redirect_signature_v0. rewrite vrsg_char.
+    change (get _ K_ALG) with (Some SHA256). cbv beta iota.
+    change (digest_of SHA256) with (Some "sha256"). cbv beta iota.
+    change (vview _) with (Some (K_REQ, "v")). cbv beta iota.
+    match goal with |- context [get ?l K_SIG] =>
+      change (get l K_SIG) with (Some (String "!"%char (encode (sign k0 "sha256" (octets_of K_REQ "v" None SHA256))))) end.
+    cbv beta iota.
+    rewrite decode_str_bang, b64_decode_str_encode. cbn [andb].
+    match goal with |- context [get ?l K_RS] => change (get l K_RS) with (@None string) end.
+    rewrite (proj2 (verify_own k0 "sha256" (octets_of K_REQ "v" None SHA256) (cert_of k0)) eq_refl).
+    reflexivity.
+  Qed.
+
+  (* the same request is rejected by the code as it is now *)
+  Lemma f1_now_rejected k0 : snd (model (f1_witness k0)) = VFalse.
+  Proof.
+    cbn [snd Spec.model f1_witness own q vc]. rewrite vrs_char, vrsg_char.
     change (get _ K_ALG) with (Some SHA256). cbv beta iota.
     change (digest_of SHA256) with (Some "sha256"). cbv beta iota.
     change (vview _) with (Some (K_REQ, "v")). cbv beta iota.
@@ -480,12 +507,11 @@ Section Proofs.
       change (get l K_SIG) with (Some (String "!"%char (encode (sign k0 "sha256" (octets_of K_REQ "v" None SHA256))))) end.
     cbv beta iota.
     rewrite decode_str_bang, b64_decode_str_encode.
-    match goal with |- context [get ?l K_RS] => change (get l K_RS) with (@None string) end.
-    rewrite (proj2 (verify_own k0 "sha256" (octets_of K_REQ "v" None SHA256) (cert_of k0)) eq_refl).
-    reflexivity.
+    match goal with |- context [String.eqb ?a ?b] => destruct (String.eqb a b) eqn:E end; [|reflexivity].
+    apply String.eqb_eq in E. symmetry in E. exfalso. exact (string_cons_neq _ _ E).
   Qed.
 
-  Lemma f1_refuted (k0 : key) : exists x, ~ spec x (model x).
+  Lemma f1_refuted (k0 : key) : exists x, ~ spec x (model_v0 x).
   Proof.
     exists (f1_witness k0). intros [H _]. specialize (H eq_refl) as [_ [_ H]].
     assert (Hin : In SHA256 spec_allowed) by (cbn; auto 10).
@@ -501,7 +527,7 @@ Section Proofs.
   Lemma request_sound own certs origdoc rs sigalg signature :
     loads_redirect cert_of verify own certs true origdoc rs sigalg signature = true ->
     exists a sp d k, sigalg = Some a /\ signature = Some sp /\ In (cert_of k) certs /\ digest_of a = Some d
-      /\ decode_str sp = Some (sign k d (octets_of K_REQ origdoc rs a)).
+      /\ sp = encode (sign k d (octets_of K_REQ origdoc rs a)).
   Proof.
     unfold loads_redirect, do_redirect_sig_check.
     destruct sigalg as [a|]; [|discriminate]. destruct signature as [sp|]; [|discriminate].
